@@ -5,7 +5,9 @@ reg(Prop('C11', [
            exhaustive='every write::AttributeValue variant x version {0..6,65535} x format x address size {1,4,8}: AttributeValue::form'),
     Stream('c11.units', 12000, 300000, 'model', timeout=900,
            exhaustive='every AttributeValue variant x version 2..5 x format x address size 4/8 x endianness (3 boundary payload draws each), '
-                      'placed before a referenced entry in a unit with forward, backward and ref_addr references and sibling pointers; odd versions / address sizes'),
+                      'placed before a referenced entry in a unit with forward, backward and ref_addr references and sibling pointers; odd versions / address sizes; '
+                      'boundary sizes: >127 / >255 (thorough: >16383) abbreviation codes, .debug_str and units beyond 64 KiB, 16383/16384-byte blocks and expressions, '
+                      'file indices >127, 12 units; 64 wide-root units (21..80 children, interleaved base types, 30+ member structs) + 10% of the random share'),
     Stream('c11.sem', 6000, 150000, 'oracle', timeout=900),
     Stream('c11.misuse', 200, 5000, 'spec'),
 ], level='proof', design_ref='§5 C11',
